@@ -744,4 +744,10 @@ theorem solvent_up_to_allowance (ops : List (Int × SOp)) (s : Sys) (hi : Mfi.Pr
 theorem standard_instructions_only_on_own_banks : Mfi.TagL.OwnBanks :=
   Mfi.TagL.standard_instructions_only_on_own_banks
 
+/-- a deposit / repayment credited with `post` tokens brings at least `post` tokens into the vault whatever the mint (classic, Token-2022 with or without a transfer fee) and whatever the epoch, also the one in which a scheduled fee change activates (C03 mint_prefee_covers; tf.mint lines of the tokenfee family run here too) -/
+theorem deposits_arrive_in_every_epoch {m : Mfi.Token.Mint} {epoch post pre f : Int} (hp : 0 ≤ post)
+    (hm : ∀ c, m = .t22fee c → Mfi.Props.C03.FeeCfgOk c)
+    (h : Mfi.Token.mintPre m epoch post = some pre) (hf : Mfi.Token.mintFee m epoch pre = some f) : post ≤ pre - f :=
+  Mfi.Props.C03.mint_prefee_covers hp hm h hf
+
 end Mfi.Props.C01
